@@ -30,7 +30,7 @@ _cache = {}
 
 def grids():
     return {
-        "A": np.linspace(0.0, np.sqrt(2.0), 15) ** 2,
+        "A": np.arange(0, 15),  # whole days as an INTEGER-typed array (np.arange): B and S have the same length and are float, so both dtype orders occur
         "B": 0.05 + np.linspace(0.0, 1.2, 15),
         "C": np.linspace(0.0, np.sqrt(6.0), 22) ** 2,
         "S": np.linspace(0.0, np.sqrt(2.0), 15) ** 2,  # simulated together with a frac-face schedule
@@ -173,7 +173,7 @@ def idem_findings(obj, letter, ret, fracs):
 
 def inp(cls_name, seq, fracs):
     return {"class": cls_name, "sequence": seq, "nx": NX, "pressure_fracface": P_F, "pressure_initial": P_I, "table": "tests/data/pvt_gas.csv",
-            "letters": "A/B/C simulate(grid A/B/C), S simulate(grid A, schedule linspace(1000,3000,15)), r recovery_factor(), d recovery_factor(density=True), i recovery_factor_interpolator()",
+            "letters": "A/B/C simulate(grid A/B/C; A = np.arange(15) is int64, B float of the same length, C float of another length), S simulate(float quadratic grid of A's length, schedule linspace(1000,3000,15)), r recovery_factor(), d recovery_factor(density=True), i recovery_factor_interpolator()",
             "probe_fractions": list(fracs)}
 
 
